@@ -62,6 +62,8 @@ class History:
         self.val_end = collections.defaultdict(list)
         self.final = None
         self.unclear = False
+        self.await_start = {}
+        self.abandoned = 0
         for e in ev:
             k = e['k']
             if k == 'express':
@@ -96,6 +98,8 @@ class History:
                 self.val_end[tuple(e['who'])].append(e)
             elif k == 'final':
                 self.final = e
+            elif k == 'await-start':
+                self.await_start[e['id']] = e
         self.first_shutdown = self.shutdowns[0]['t'] if self.shutdowns else None
         self.had_junk = any(r['c']['kind'] == 'junk' for r in self.rx)
 
@@ -203,6 +207,98 @@ def _short(d):
     return d
 
 
+def _acceptable(h, fe, ex, op, iid, dl, t_await, w_us):
+    """Acceptable outcome sets of one Interest for deadline `dl`, when the caller starts awaiting at `t_await`.
+    -> (acc03, acc05, late_possible, number of deciding candidates)"""
+    te = ex['t']
+    node_name, digest = _split_digest(ex['name'])
+    vspec = op.get('validator')
+    lat = (vspec or {}).get('latency_us', 0)
+    cands = []          # (t, kind, payload, optional)
+    for r in h.rx:
+        c = r['c']
+        t = r['t_last']
+        if t < te - w_us:
+            continue
+        optional = t <= te + w_us
+        if c['kind'] == 'data':
+            if ex['cbp']:
+                m = _is_prefix(node_name, c['name'])
+            else:
+                m = list(c['name']) == list(node_name)
+            if m and digest is not None:
+                m = c['digest'] == digest
+            if m:
+                cands.append((t, 'data', c, optional))
+        elif c['kind'] == 'nack':
+            if list(c['name']) == list(ex['name']):
+                cands.append((t, 'nack', c, optional))
+    for s in h.shutdowns:
+        if s['t'] >= te - w_us:
+            cands.append((s['t'], 'shutdown', None, s['t'] <= te + w_us))
+            break
+    cands.append((dl, 'timeout', None, False))
+    cands.sort(key=lambda x: x[0])
+    t0 = min(c[0] for c in cands if not c[3])
+    deciders = [c for c in cands if c[0] <= t0 + w_us]
+    cancels = [ce['t'] for ce in h.cancels.get(iid, [])]
+
+    acc03 = set()       # acceptable for C03 (which event decided; validation lateness lenient)
+    acc05 = set()       # acceptable for C05 (validator clauses strict)
+    late_possible = False
+    for (t, kind, c, _opt) in deciders:
+        if kind == 'nack':
+            o03 = {('nack', c['reason'])}
+            o05 = set(o03)
+            end = max(t, t_await)
+        elif kind == 'shutdown':
+            o03 = {('canceled',)}
+            o05 = set(o03)
+            end = max(t, t_await)
+        elif kind == 'timeout':
+            o03 = {('timeout',)}
+            o05 = set(o03)
+            end = max(t, t_await)
+        else:
+            vo = _verdict_outcome(fe, vspec, c)
+            # the current front-end validates as soon as the Data is there; the legacy one when the caller awaits
+            tv = (t if fe == 'v2' else max(t, t_await)) + lat
+            if vo[0] == 'either':
+                o03 = {('data', vo[1], vo[2]), ('invalid', vo[1], vo[2], None)}
+            else:
+                o03 = {vo}
+            o05 = set(o03)
+            end = max(tv, t_await)
+            if tv > dl + w_us:
+                o05 = {('timeout',)}
+                o03 = o03 | {('timeout',)}
+                end = max(dl, t_await)
+                late_possible = True
+            elif tv >= dl - w_us:
+                o05 = o05 | {('timeout',)}
+                o03 = o03 | {('timeout',)}
+            for s in h.shutdowns:
+                if t - w_us < s['t'] < end + w_us:
+                    o03.add(('canceled',))
+                    o05.add(('canceled',))
+        # the caller's own cancellation: decisive if it comes before the completion would reach the caller
+        for tc in cancels:
+            if tc < t - w_us:
+                o03, o05 = {('canceled',)}, {('canceled',)}
+            elif tc < end - w_us:
+                if tc > t + w_us or kind in ('data',):
+                    o03, o05 = {('canceled',)}, {('canceled',)}
+                else:
+                    o03.add(('canceled',))
+                    o05.add(('canceled',))
+            elif tc <= end + w_us:
+                o03.add(('canceled',))
+                o05.add(('canceled',))
+        acc03 |= o03
+        acc05 |= o05
+    return acc03, acc05, late_possible, len(deciders)
+
+
 def judge_consumer(world, h, relaxed):
     fe = h.fe
     for iid, ex in h.express.items():
@@ -228,98 +324,46 @@ def judge_consumer(world, h, relaxed):
             world.violate('C03', 'internal-error', comp, a.get('where', '?'),
                           f'express() of Interest {iid} raised {a.get("msg")} although the face was running')
             continue
+        if (op.get('await_delay_us') or 0) and h.await_start.get(iid) is None:
+            # the caller was cancelled (or the run ended) before it ever awaited the result: the Interest was abandoned,
+            # there is no completion to judge and nothing the library could have cleaned up
+            h.abandoned += 1
+            world.ambiguous += 1
+            continue
         if relaxed:
             continue
         te = ex['t']
         life_us = (ex['lifetime'] if ex['lifetime'] is not None else (4000 if fe == 'v2' else 100)) * 1000
         dl = te + life_us
-        node_name, digest = _split_digest(ex['name'])
-        vspec = op.get('validator')
-        lat = (vspec or {}).get('latency_us', 0)
-
-        cands = []          # (t, kind, payload, optional)
-        for r in h.rx:
-            c = r['c']
-            t = r['t_last']
-            if t < te - W_US:
-                continue
-            optional = t <= te + W_US
-            if c['kind'] == 'data':
-                if ex['cbp']:
-                    m = _is_prefix(node_name, c['name'])
-                else:
-                    m = list(c['name']) == list(node_name)
-                if m and digest is not None:
-                    m = c['digest'] == digest
-                if m:
-                    cands.append((t, 'data', c, optional))
-            elif c['kind'] == 'nack':
-                if list(c['name']) == list(ex['name']):
-                    cands.append((t, 'nack', c, optional))
-        for ce in h.cancels.get(iid, []):
-            cands.append((ce['t'], 'cancel', None, False))
-        for s in h.shutdowns:
-            if s['t'] >= te - W_US:
-                cands.append((s['t'], 'shutdown', None, s['t'] <= te + W_US))
-                break
-        cands.append((dl, 'timeout', None, False))
-        cands.sort(key=lambda x: x[0])
-        t0 = min(c[0] for c in cands if not c[3])
-        deciders = [c for c in cands if c[0] <= t0 + W_US]
-
-        acc03 = set()       # acceptable for C03 (which event decided; validation lateness lenient)
-        acc05 = set()       # acceptable for C05 (validator clauses strict)
-        late_possible = False
-        for (t, kind, c, _opt) in deciders:
-            if kind == 'nack':
-                acc03.add(('nack', c['reason']))
-                acc05.add(('nack', c['reason']))
-            elif kind in ('cancel', 'shutdown'):
-                acc03.add(('canceled',))
-                acc05.add(('canceled',))
-            elif kind == 'timeout':
-                acc03.add(('timeout',))
-                acc05.add(('timeout',))
-            elif kind == 'data':
-                vo = _verdict_outcome(fe, vspec, c)
-                tv = t + lat
-                if vo[0] == 'either':
-                    o03 = {('data', vo[1], vo[2]), ('invalid', vo[1], vo[2], None)}
-                    vo = ('data', vo[1], vo[2])
-                else:
-                    o03 = {vo}
-                o05 = set(o03)
-                end = tv
-                if tv > dl + W_US:
-                    o05 = {('timeout',)}
-                    o03 = o03 | {('timeout',)}
-                    end = dl
-                    late_possible = True
-                elif tv >= dl - W_US:
-                    o05 = o05 | {('timeout',)}
-                    o03 = o03 | {('timeout',)}
-                    world.ambiguous += 1
-                for ce in h.cancels.get(iid, []):
-                    if ce['t'] > t:
-                        if ce['t'] < end - W_US:
-                            o03 = {('canceled',)}
-                            o05 = {('canceled',)}
-                        elif ce['t'] <= end + W_US:
-                            o03.add(('canceled',))
-                            o05.add(('canceled',))
-                for s in h.shutdowns:
-                    if t - W_US < s['t'] < end + W_US:
-                        o03.add(('canceled',))
-                        o05.add(('canceled',))
-                acc03 |= o03
-                acc05 |= o05
-        if len(deciders) > 1:
+        d_us = op.get('await_delay_us', 0) or 0
+        aw = h.await_start.get(iid)
+        if d_us and aw is None:
+            # the caller was cancelled (or the run ended) before it ever awaited the result: the Interest was abandoned,
+            # there is no completion to judge and nothing the library could have cleaned up
+            h.abandoned += 1
             world.ambiguous += 1
-
+            continue
+        t_await = aw['t'] if aw is not None else te
+        w_us = W_US + (world.cfg.get('wall_gran_us', 1000) if d_us else 0)
+        vspec = op.get('validator')
+        acc03, acc05, late_possible, n_dec = _acceptable(h, fe, ex, op, iid, dl, t_await, w_us)
+        if n_dec > 1:
+            world.ambiguous += 1
         act = _actual_descr(a)
         ok03 = _in(act, acc03, fe)
         ok05 = _in(act, acc05, fe)
         where = 'express'
+        if d_us and (not ok03 or (act[0] == 'timeout' and abs(a['t'] - max(dl, t_await)) > w_us)):
+            # does the outcome fit a lifetime that only starts when the caller awaits?
+            dl2 = t_await + life_us
+            b03, b05, _lp, _n = _acceptable(h, fe, ex, op, iid, dl2, t_await, w_us)
+            del b05
+            if _in(act, b03, fe) and (act[0] != 'timeout' or abs(a['t'] - dl2) <= w_us):
+                world.violate('C03', 'lifetime-from-await', comp, where,
+                              f'Interest {iid} {_fmt_name(ex["name"])} expressed t={te}us with lifetime {life_us}us (deadline '
+                              f't={dl}us), awaited from t={t_await}us: finished {_short(act)} at t={a["t"]}us - as if the lifetime had '
+                              f'started when the caller began to await (deadline t={dl2}us)')
+                continue
         if not ok03:
             rule = 'outcome'
             if act[0] == 'data' and not any(e[0] == 'data' for e in acc03):
@@ -364,12 +408,12 @@ def judge_consumer(world, h, relaxed):
                               f'Interest {iid} returned a payload but its validator '
                               f'{"did not accept" if ends else "was never run to completion"}')
         # timing of a timeout
-        if act[0] == 'timeout' and ('timeout',) in acc03 and abs(a['t'] - dl) > W_US \
+        if act[0] == 'timeout' and ('timeout',) in acc03 and abs(a['t'] - max(dl, t_await)) > w_us \
                 and not any(e[0] != 'timeout' for e in acc03):
             world.violate('C03', 'timeout-time', comp, where,
                           f'Interest {iid} timed out at t={a["t"]}us, deadline was t={dl}us')
     # leftovers
-    if h.final is not None and h.final['pit'] is not None and h.final['pit'] > 0:
+    if h.final is not None and h.final['pit'] is not None and h.final['pit'] > h.abandoned:
         world.violate('C03', 'leftover', fe, 'pending-table',
                       f'{h.final["pit"]} pending entr(ies) remain after every Interest finished '
                       f'and every deadline passed')
